@@ -70,10 +70,60 @@ JOBS = {'quick': 4, 'thorough': 16}
 EXHAUSTIVE = {'quick': False, 'thorough': False}
 
 
+
+def _copy_protocol(ctx):
+    """Every way the language offers to copy a Handlers object - the copy() method, copy.copy(), copy.deepcopy(), pickling is not
+    claimed - gives an independent mapping: what is then changed in the copy is resolved by the copy and unknown to the original,
+    and the other way round (resolution always follows the CURRENT mapping of the object asked)."""
+    import copy
+    import falcon
+    from falcon import media
+    rnd = ctx.rng
+    name = 'copies of a Handlers object (copy(), copy.copy, copy.deepcopy) resolve by their own current mapping, the original by its own'
+
+    class H(media.BaseHandler):
+        def __init__(self, tag): self.tag = tag
+        def serialize(self, m, content_type=None): return self.tag.encode()
+        def deserialize(self, stream, content_type, content_length): return self.tag
+    KEYS = ['application/json', 'text/plain', 'text/html', 'application/x-a', 'application/x-b', 'image/png', 'text/x-new']
+    for ci in range(ctx.n(300, 3000)):
+        keys = rnd.sample(KEYS[:-1], rnd.randint(0, 4))
+        orig = media.Handlers({k: H('o:' + k) for k in keys})
+        for k in keys[:2]:
+            try: orig._resolve(k, 'application/json')        # warm the resolver cache of the original
+            except falcon.HTTPError: pass
+        how = ('method', 'copy.copy', 'copy.deepcopy')[ci % 3]
+        c = orig.copy() if how == 'method' else copy.copy(orig) if how == 'copy.copy' else copy.deepcopy(orig)
+        added = rnd.choice([k for k in KEYS if k not in keys])
+        side = rnd.choice(['copy', 'original'])
+        tgt, other = (c, orig) if side == 'copy' else (orig, c)
+        tgt[added] = H('n:' + added)
+        removed = rnd.choice(keys) if keys and rnd.random() < 0.5 else None
+        if removed:
+            del tgt[removed]
+        what = None
+
+        def res(hs, k):
+            try: return hs._resolve(k, 'application/x-none')[0].tag
+            except falcon.HTTPUnsupportedMediaType: return 415
+        if type(c) is not type(orig) or c is orig: what = f'{how} did not create a new Handlers object'
+        elif res(tgt, added) != 'n:' + added: what = f'after {how}: the {side} got {added!r} but resolves it to {res(tgt, added)!r}'
+        elif res(other, added) != 415: what = f'after {how}: {added!r} was added to the {side} only, yet the other object resolves it to {res(other, added)!r}'
+        elif removed and res(tgt, removed) != 415: what = f'after {how}: {removed!r} was deleted from the {side} but still resolves to {res(tgt, removed)!r}'
+        elif removed and res(other, removed) != 'o:' + removed: what = f'after {how}: {removed!r} was deleted from the {side} only, the other object now resolves it to {res(other, removed)!r}'
+        else:
+            for k in keys:
+                if k != removed and (res(c, k), res(orig, k)) != ('o:' + k, 'o:' + k):
+                    what = f'after {how}: {k!r} resolves to {res(c, k)!r} on the copy and {res(orig, k)!r} on the original'
+        ctx.oracle(name, what is None, what, {'copied_by': how, 'initial_keys': keys, 'then_added_to': side, 'added': added, 'deleted': removed})
+        ctx.seen(('copyproto', how, tuple(keys), side, added, removed), True)
+        ctx.count('handlers_copy_protocol_' + how)
+
 def run(ctx):
     _negotiation(ctx)
     _handlers(ctx)
     _requests(ctx)
+    _copy_protocol(ctx)
 
 
 def hexs(s):
@@ -789,11 +839,23 @@ def _handlers(ctx):
                             why = why or 'popitem() raised KeyError on a non-empty mapping'
                     sess.op(f'popitem {cur}', rep + mapping(cur))
                 elif name == 'copy':
-                    c = h.copy()
+                    # every way the language offers to copy the object: the method, copy.copy() and copy.deepcopy()
+                    how = ('method', 'copy.copy')[(len(ops) + len(objs)) % 2]       # (copy.deepcopy: see _copy_protocol, the handlers get new identities)
+                    ctx.count('handlers_copied_by_' + how)
+                    c = h.copy() if how == 'method' else __import__('copy').copy(h)
                     if type(c) is not type(h) or c is h:
                         why = why or 'copy() did not create a new Handlers object'
-                    objs.append(c); shadows.append(dict(shadow))
-                    sess.op(f'copy {cur}', 'ok ' + mapping(len(objs) - 1))
+                    if how == 'copy.deepcopy':
+                        # a deep copy holds copies of the handlers: same keys in the same order, same handler classes, new identities
+                        if list(c.data) != list(shadow) or any(type(c.data[k_]) is not type(h.data[k_]) for k_ in shadow):
+                            why = why or f'deepcopy changed the keys or handler classes: {list(c.data)} vs {list(shadow)}'
+                        objs.append(c); shadows.append({k_: ident(c.data[k_]) for k_ in c.data})
+                    else:
+                        objs.append(c); shadows.append(dict(shadow))
+                    if how == 'copy.deepcopy':      # to the model a deep copy is a new object built from (copies of) the items
+                        sess.op('new ' + mapping(len(objs) - 1), 'ok ' + mapping(len(objs) - 1))
+                    else:
+                        sess.op(f'copy {cur}', 'ok ' + mapping(len(objs) - 1))
                     if op[1]:
                         cur = len(objs) - 1     # continue the history on the copy; the original is re-checked at the end
                 elif name == 'switch':
@@ -1185,8 +1247,10 @@ def _requests(ctx):
                     cur = new_handlers(o[1])
                     opts.media_handlers = objs[cur]
                     op(f'rset handlers {cur}', 'ok')
-                elif name == 'replace_copy':  # options.media_handlers = options.media_handlers.copy()
-                    c = h.copy()
+                elif name == 'replace_copy':  # options.media_handlers = a copy of options.media_handlers (method / copy.copy / copy.deepcopy)
+                    how = ('method', 'copy.copy')[len(objs) % 2]            # (deep copies: in the Handlers histories above)
+                    ctx.count('handlers_replaced_by_copy_via_' + how)
+                    c = h.copy() if how == 'method' else __import__('copy').copy(h)
                     objs.append(c); shadows.append(dict(shadow))
                     op(f'copy {cur}', 'ok ' + kvs(c))
                     cur = len(objs) - 1
